@@ -1,5 +1,943 @@
-//! C19 — not built yet.
+//! C19 — `\input`, `\endinput` and `\read` treat files as lines standing in place.
+//! Engines: BEX over file trees (real VM on an in-memory file system vs `reftex::readtoks` input
+//! stack, plus a model-free inlining oracle) + XS over histories of `\openin`/`\read`/`\ifeof`/`\closein`
+//! (explicit-state BFS, states merged on the drained implementation state). DESIGN.md §3 C19.
+
+use reftex::readtoks::{self, EndInput, Eof, ReadMachine, ReadOutcome, Stop};
+use reftex::scan::{self, Table, TokV};
+use serde_json::{json, Value};
+use std::cell::RefCell;
+use std::collections::BTreeMap;
+use std::rc::Rc;
+use vcore::{Acc, Ctx, Level};
+use vtex::Outcome;
+
+fn model_cfg() -> scan::Config {
+    // the VM's default table is CatCode::PLAIN_TEX_DEFAULTS; the characters used by this check have
+    // the same codes in plain.tex (checked in self_validate)
+    scan::Config { table: Table::plain(), end_line_char: Some('\r'), hex: true }
+}
+
+// ---------------------------------------------------------------- file trees
+
+/// Line menu; `@` stands for the name of the file the line inputs.
+const MENU: [&str; 18] = [
+    "a",
+    "a ",
+    "",
+    "\\input @ b",
+    "\\input @",
+    "x\\endinput y",
+    "\\endinput",
+    "{",
+    "}",
+    "\\iftrue",
+    "\\fi",
+    "%c",
+    // TeX's single force_eof flag: the file opened on the rest of the \endinput line is the one that is closed
+    "x\\endinput\\input @ y",
+    // \endinput inside a macro body that ends on the line
+    "\\def\\m{u\\endinput v}\\m w",
+    // the file name is ended by an unexpandable token, which is backed up below the new file (\par is a
+    // primitive for TeX and reaches main control in the crate as well)
+    "\\input @\\par b",
+    // further placements (used by the `placements` families only)
+    "a\\input @ b",
+    "a\\input @",
+    "x\\endinput",
+];
+/// the first `MENU_CORE` lines form the menu of the big families
+const MENU_CORE: usize = 15;
+const LEAVES: [&str; 5] = ["k", "k\n", "", "p\nq\n", "u\\endinput v\nw\n"];
+
+#[derive(Clone, Debug, PartialEq)]
+enum Spec {
+    /// menu line indices, final newline
+    Lines(Vec<u8>, bool),
+    Literal(&'static str),
+}
+impl Spec {
+    fn n_in(&self) -> usize {
+        match self {
+            Spec::Lines(l, _) => l.iter().filter(|i| MENU[**i as usize].contains('@')).count(),
+            Spec::Literal(_) => 0,
+        }
+    }
+    /// text of the file called `name`; its k-th `\input` line names the file `name` + ('a'+k)
+    fn text(&self, name: &str) -> String {
+        match self {
+            Spec::Literal(s) => s.to_string(),
+            Spec::Lines(l, nl) => {
+                let mut k = 0u8;
+                let mut lines = vec![];
+                for i in l {
+                    let m = MENU[*i as usize];
+                    if m.contains('@') {
+                        lines.push(m.replace('@', &format!("{name}{}", (b'a' + k) as char)));
+                        k += 1;
+                    } else {
+                        lines.push(m.to_string());
+                    }
+                }
+                let mut t = lines.join("\n");
+                if *nl {
+                    t.push('\n');
+                }
+                t
+            }
+        }
+    }
+}
+
+/// All files of exactly `n` menu lines (with and without final newline).
+fn files_of(n: usize, menu: usize) -> Vec<Spec> {
+    let mut v = vec![];
+    let total = (menu as u64).pow(n as u32);
+    for i in 0..total {
+        let d = vcore::digits(i, &vec![menu as u64; n]);
+        let l: Vec<u8> = d.iter().map(|x| *x as u8).collect();
+        v.push(Spec::Lines(l.clone(), false));
+        v.push(Spec::Lines(l, true));
+    }
+    v
+}
+fn files_upto(n: usize, menu: usize) -> Vec<Spec> {
+    let mut v = vec![Spec::Literal("")];
+    for k in 1..=n {
+        v.extend(files_of(k, menu));
+    }
+    v
+}
+fn leaves() -> Vec<Spec> {
+    LEAVES.iter().map(|s| Spec::Literal(s)).collect()
+}
+
+/// A shape: one set of candidate files per level; the last level has no `\input` line.
+struct Shape {
+    levels: Vec<Vec<Spec>>,
+    /// per level: cumulative number of subtrees rooted at the files of that level
+    cum: Vec<Vec<u64>>,
+    /// per level: total number of subtrees
+    total: Vec<u64>,
+}
+impl Shape {
+    fn new(levels: Vec<Vec<Spec>>) -> Shape {
+        let n = levels.len();
+        let mut cum = vec![vec![]; n];
+        let mut total = vec![0u64; n + 1];
+        total[n] = 1;
+        for l in (0..n).rev() {
+            let mut c = 0u64;
+            for s in &levels[l] {
+                let k = s.n_in() as u32;
+                assert!(l + 1 < n || k == 0, "the last level must not input anything");
+                c = c.checked_add(total[l + 1].checked_pow(k).expect("tree count overflow")).expect("tree count overflow");
+                cum[l].push(c);
+            }
+            total[l] = c;
+        }
+        Shape { levels, cum, total }
+    }
+    fn count(&self) -> u64 {
+        self.total[0]
+    }
+    /// Decode subtree number `idx` at `level` into files; returns the root's text.
+    fn build(&self, level: usize, idx: u64, name: &str, files: &mut BTreeMap<String, String>, sel: &mut Vec<(String, usize)>) -> String {
+        let pos = self.cum[level].partition_point(|c| *c <= idx);
+        let before = if pos == 0 { 0 } else { self.cum[level][pos - 1] };
+        let spec = &self.levels[level][pos];
+        sel.push((name.to_string(), pos));
+        let mut rest = idx - before;
+        let k = spec.n_in();
+        let radix = self.total[level + 1];
+        let mut child_idx = vec![0u64; k];
+        for j in (0..k).rev() {
+            child_idx[j] = rest % radix;
+            rest /= radix;
+        }
+        for (j, ci) in child_idx.iter().enumerate() {
+            let cname = format!("{name}{}", (b'a' + j as u8) as char);
+            let text = self.build(level + 1, *ci, &cname, files, sel);
+            files.insert(cname, text);
+        }
+        spec.text(name)
+    }
+}
+
+#[derive(Clone, Debug)]
+struct TreeCase {
+    main: String,
+    files: BTreeMap<String, String>,
+}
+impl TreeCase {
+    fn json(&self) -> Value {
+        json!({"kind": "tree", "main": self.main, "files": self.files})
+    }
+    fn from_json(v: &Value) -> TreeCase {
+        TreeCase { main: v["main"].as_str().unwrap_or("").to_string(), files: v["files"].as_object().map(|o| o.iter().map(|(k, v)| (k.clone(), v.as_str().unwrap_or("").to_string())).collect()).unwrap_or_default() }
+    }
+}
+
+fn run_tree_impl(case: &TreeCase) -> Outcome {
+    vtex::run_fresh_with(&case.main, |vm| {
+        let fs = vm.state.env.fs.borrow();
+        for (n, c) in &case.files {
+            fs.add(&format!("{n}.tex"), c);
+        }
+    })
+}
+
+fn stop_matches(stop: &Stop, err: &Option<String>) -> bool {
+    match (stop, err) {
+        (Stop::EndOfInput, None) => true,
+        (Stop::ExtraRightBrace, Some(t)) => t == "there is no group to end",
+        (Stop::ExtraFi, Some(t)) => t.starts_with("unexpected `fi`"),
+        (Stop::FileNotFound(_), Some(t)) => t.starts_with("could not read from"),
+        (Stop::TooManyInputs, Some(t)) => t == "too many input levels (100)",
+        _ => false,
+    }
+}
+fn show_model(r: &readtoks::RunResult) -> String {
+    match &r.stop {
+        Stop::EndOfInput => r.out.clone(),
+        s => format!("{} !{:?}", r.out, s),
+    }
+}
+
+fn judge_tree(idx: u64, case: &TreeCase, acc: &mut Acc, inline_oracle: bool) {
+    acc.eval();
+    let cfg = model_cfg();
+    let want = readtoks::run_input(&case.files, &case.main, &cfg, EndInput::TexGlobalFlag);
+    // rule N and collision counters, from the model
+    if want.max_open_files >= 2 || want.endinput_executed > 0 {
+        acc.nontrivial();
+    }
+    if want.input_mid_line {
+        acc.count("input_mid_line");
+    }
+    if want.file_ended_in_group {
+        acc.count("file_ended_in_group");
+    }
+    if want.file_ended_in_cond {
+        acc.count("file_ended_in_conditional");
+    }
+    if want.endinput_with_rest {
+        acc.count("endinput_with_rest");
+    }
+    if want.endinput_executed > 0 && !want.endinput_with_rest {
+        acc.count("endinput_at_line_end");
+    }
+    if want.force_eof_closed_other_file {
+        acc.count("force_eof_closed_other_file");
+    }
+    if want.backed_token_across_push {
+        acc.count("backed_token_across_push");
+    }
+    if want.max_open_files >= 3 {
+        acc.count("nesting_ge_2");
+    }
+    let stop_name = match &want.stop {
+        Stop::EndOfInput => "end",
+        Stop::ExtraRightBrace => "extra-}",
+        Stop::ExtraFi => "extra-fi",
+        Stop::FileNotFound(_) => "missing-file",
+        Stop::TooManyInputs => "too-many-inputs",
+        Stop::BadDef => "bad-def",
+        Stop::UnknownCs(_) => "unknown-cs",
+        Stop::Budget => "budget",
+    };
+    if matches!(want.stop, Stop::BadDef | Stop::Budget | Stop::UnknownCs(_)) {
+        // not produced by the menus; a model limitation must never be judged
+        acc.skipped += 1;
+        return;
+    }
+    acc.class(&format!("open{} endinput{} {}", want.max_open_files.min(6), want.endinput_executed.min(3), stop_name));
+    let got = match run_tree_impl(case) {
+        Outcome::Done(r) => r,
+        Outcome::Cutoff => {
+            acc.cutoffs += 1;
+            return;
+        }
+        Outcome::Panic(p) => {
+            acc.fail(idx, case.json(), show_model(&want), p.describe(), "the VM panicked");
+            return;
+        }
+    };
+    if got.out == want.out && stop_matches(&want.stop, &got.err) {
+        if inline_oracle {
+            inline_check(idx, case, &got, acc);
+        }
+        return;
+    }
+    if want.endinput_with_rest {
+        // finding D14a: applies = an \endinput is executed while the line of its file (or a token list
+        // above it) still holds something TeX reads; adjusted = per-source flag, rest of the line dropped
+        let adj = readtoks::run_input(&case.files, &case.main, &cfg, EndInput::PerSourceDropLine);
+        if got.out == adj.out && stop_matches(&adj.stop, &got.err) {
+            acc.known("D14a", idx, || {
+                let mut j = case.json();
+                j["expected_tex"] = json!(show_model(&want));
+                j["observed"] = json!(got.show());
+                j
+            });
+            return;
+        }
+    }
+    acc.fail(idx, case.json(), show_model(&want), got.show(), "delivered characters differ from the lines-in-place model");
+}
+
+/// Model-free oracle: a line that is exactly `\input X`, with X non-empty, ending in a newline and
+/// free of `\endinput`, can be replaced by the text of X.
+fn inline_check(idx: u64, case: &TreeCase, got: &vtex::RunOut, acc: &mut Acc) {
+    let mut changed = false;
+    let mut out: Vec<String> = vec![];
+    for l in scan::split_lines(&case.main) {
+        let mut done = false;
+        if let Some(name) = l.strip_prefix("\\input ") {
+            if !name.is_empty() && name.chars().all(|c| c.is_ascii_lowercase()) {
+                if let Some(text) = case.files.get(name) {
+                    if text.ends_with('\n') && !text.contains("\\endinput") {
+                        out.extend(scan::split_lines(text));
+                        changed = true;
+                        done = true;
+                    }
+                }
+            }
+        }
+        if !done {
+            out.push(l);
+        }
+    }
+    if !changed {
+        return;
+    }
+    // every line terminated: the pasted program has exactly these lines
+    let pasted = TreeCase { main: out.iter().map(|l| format!("{l}\n")).collect(), files: case.files.clone() };
+    acc.eval();
+    acc.nontrivial();
+    acc.count("inlining_oracle_applied");
+    match run_tree_impl(&pasted) {
+        Outcome::Done(r) => {
+            if &r != got {
+                let mut j = case.json();
+                j["kind"] = json!("inline");
+                j["pasted_main"] = json!(pasted.main);
+                acc.fail(idx, j, format!("same as with the file pasted in: {}", r.show()), got.show(), "\\input differs from the same program with the file's lines pasted in place");
+            }
+        }
+        Outcome::Cutoff => acc.cutoffs += 1,
+        Outcome::Panic(p) => {
+            let mut j = pasted.json();
+            j["kind"] = json!("tree");
+            acc.fail(idx, j, got.show(), p.describe(), "the VM panicked on the pasted program");
+        }
+    }
+}
+
+// ---------------------------------------------------------------- depth chain
+
+fn chain_case(n: usize, shape: usize) -> TreeCase {
+    let mut files = BTreeMap::new();
+    for k in 1..=n {
+        let text = if k == n {
+            "L".to_string()
+        } else {
+            match shape {
+                0 => format!("\\input c{}", k + 1),
+                1 => format!("a\\input c{} b\n", k + 1),
+                _ => format!("\\input c{}\nz\n", k + 1),
+            }
+        };
+        files.insert(format!("c{k}"), text);
+    }
+    TreeCase { main: "\\input c1 m".into(), files }
+}
+
+// ---------------------------------------------------------------- read streams
+
+/// the last file ends inside a brace group: a \read of it is an error, it is kept out of the state search
+/// (a drain would die on it) and covered by the flat family
+const STREAM_FILES: [(&str, &str); 9] = [("fa", ""), ("fb", "a"), ("fc", "a\n"), ("fd", "a\nb"), ("fe", "{a\nb}"), ("ff", "a}b\nc"), ("fg", "a\n\n"), ("fi", " x \n%\ny"), ("fh", "{a")];
+const XS_FILES: usize = 8;
+const TERMINAL: [&str; 14] = ["p", "q{", "r}", "s", "t}u", "v", "w", "p", "q{", "r}", "s", "t}u", "v", "w"];
+
+#[derive(Clone, Copy, Debug, PartialEq)]
+enum Act {
+    Open(i64, usize), // usize::MAX = missing file
+    Read(i64),
+    IfEof(i64),
+    Close(i64),
+}
+impl Act {
+    fn text(&self) -> String {
+        match self {
+            Act::Open(s, f) => format!("\\openin {s}={} ", if *f == usize::MAX { "zz" } else { STREAM_FILES[*f].0 }),
+            Act::Read(s) => format!("\\read {s} to\\x \\expandafter\\capture\\x\\END "),
+            Act::IfEof(s) => format!("\\ifeof {s} T\\else F\\fi "),
+            Act::Close(s) => format!("\\closein {s} "),
+        }
+    }
+}
+
+impl Act {
+    fn json(&self) -> Value {
+        match self {
+            Act::Open(s, f) => json!(["open", s, if *f == usize::MAX { -1 } else { *f as i64 }]),
+            Act::Read(s) => json!(["read", s]),
+            Act::IfEof(s) => json!(["ifeof", s]),
+            Act::Close(s) => json!(["close", s]),
+        }
+    }
+    fn from_json(v: &Value) -> Act {
+        let s = v[1].as_i64().unwrap_or(0);
+        match v[0].as_str() {
+            Some("open") => Act::Open(s, v[2].as_i64().map(|f| if f < 0 { usize::MAX } else { f as usize }).unwrap_or(usize::MAX)),
+            Some("read") => Act::Read(s),
+            Some("ifeof") => Act::IfEof(s),
+            _ => Act::Close(s),
+        }
+    }
+}
+
+fn actions(quick: bool, nfiles: usize) -> Vec<Act> {
+    let streams: &[i64] = if quick { &[0, 15] } else { &[0, 1, 15] };
+    let mut a = vec![];
+    for &s in streams {
+        for f in 0..nfiles {
+            a.push(Act::Open(s, f));
+        }
+        a.push(Act::Open(s, usize::MAX));
+    }
+    a.push(Act::Open(16, 3));
+    a.push(Act::Open(-1, 1));
+    for &s in streams.iter().chain([16i64, -1].iter()) {
+        a.push(Act::Read(s));
+        a.push(Act::IfEof(s));
+        a.push(Act::Close(s));
+    }
+    a
+}
+
+/// What the model says a program prints, or the point where it dies.
+#[derive(Clone, Debug, PartialEq)]
+struct Printed {
+    out: String,
+    dead: Option<&'static str>,
+}
+
+struct ModelRun {
+    m: ReadMachine,
+    x: Option<Vec<TokV>>,
+    y: Option<Vec<TokV>>,
+    p: Printed,
+}
+impl ModelRun {
+    fn new(eof: Eof) -> ModelRun {
+        ModelRun { m: ReadMachine::new(model_cfg(), eof, &TERMINAL), x: None, y: None, p: Printed { out: String::new(), dead: None } }
+    }
+    fn read(&mut self, s: i64, into_y: bool) {
+        match self.m.read(s) {
+            ReadOutcome::Toks(t) => {
+                self.p.out.push_str(&readtoks::show_toks(&t));
+                if into_y {
+                    self.y = Some(t)
+                } else {
+                    self.x = Some(t)
+                }
+            }
+            ReadOutcome::TerminalExhausted => self.p.dead = Some("failed to read from the terminal"),
+            ReadOutcome::FileEndedInGroup => self.p.dead = Some("file has an unmatched opening brace"),
+        }
+    }
+    fn act(&mut self, a: &Act) {
+        if self.p.dead.is_some() {
+            return;
+        }
+        match a {
+            Act::Open(s, f) => self.m.openin(*s, if *f == usize::MAX { None } else { Some(STREAM_FILES[*f].1) }),
+            Act::Read(s) => self.read(*s, false),
+            Act::IfEof(s) => {
+                let b = self.m.ifeof(*s);
+                self.p.out.push(if b { 'T' } else { 'F' });
+            }
+            Act::Close(s) => self.m.closein(*s),
+        }
+    }
+    /// The drain program (see `drain_text`) on the model.
+    fn drain(&mut self, streams: &[i64]) {
+        self.p.out.clear();
+        match &self.x {
+            None => self.p.out.push_str("[\\x]"),
+            Some(t) => self.p.out.push_str(&readtoks::show_toks(t)),
+        }
+        self.p.out.push('|');
+        for s in 0..16 {
+            let b = self.m.ifeof(s);
+            self.p.out.push(if b { 'E' } else { 'O' });
+        }
+        self.p.out.push('|');
+        for &s in streams {
+            for _ in 0..DRAIN_READS {
+                if self.p.dead.is_some() {
+                    return;
+                }
+                if self.m.ifeof(s) {
+                    self.p.out.push('.');
+                } else {
+                    self.read(s, true);
+                    if self.p.dead.is_some() {
+                        return;
+                    }
+                    self.p.out.push(',');
+                }
+            }
+            self.p.out.push(';');
+        }
+    }
+}
+const DRAIN_READS: usize = 5;
+fn drain_text(streams: &[i64]) -> String {
+    let mut t = String::from("\\expandafter\\capture\\x\\END|");
+    for s in 0..16 {
+        t.push_str(&format!("\\ifeof {s} E\\else O\\fi "));
+    }
+    t.push('|');
+    for s in streams {
+        for _ in 0..DRAIN_READS {
+            t.push_str(&format!("\\ifeof {s} .\\else\\read {s} to\\y \\expandafter\\capture\\y\\END,\\fi "));
+        }
+        t.push(';');
+    }
+    t.push('%');
+    t
+}
+
+#[derive(Clone, Debug, PartialEq, Eq, Hash)]
+struct Fp {
+    drain: String,
+    terminal_pos: usize,
+}
+
+struct ImplRun {
+    main: vtex::RunOut,
+    drain: Option<vtex::RunOut>,
+    terminal_pos: usize,
+}
+
+fn run_history_impl(prog: &str, drain: &str) -> Result<ImplRun, vcore::Panic> {
+    vcore::catch(|| {
+        let mut vm = vtex::new_vm();
+        {
+            let fs = vm.state.env.fs.borrow();
+            for (n, c) in STREAM_FILES {
+                fs.add(&format!("{n}.tex"), c);
+            }
+        }
+        let term = Rc::new(RefCell::new(vtex::ScriptTerminal { lines: TERMINAL.iter().map(|s| s.to_string()).collect(), pos: 0 }));
+        vm.state.error_mode.set_default_terminal(term.clone());
+        vm.state.env.step_budget.set(20_000);
+        let main = vtex::run(&mut vm, prog);
+        let d = if main.err.is_none() { Some(vtex::run(&mut vm, drain)) } else { None };
+        let pos = term.borrow().pos;
+        ImplRun { main, drain: d, terminal_pos: pos }
+    })
+}
+
+fn printed_matches(p: &Printed, r: &vtex::RunOut) -> bool {
+    p.out == r.out && p.dead.map(|s| s.to_string()) == r.err
+}
+fn show_printed(p: &Printed) -> String {
+    match p.dead {
+        None => p.out.clone(),
+        Some(e) => format!("{} !{}", p.out, e),
+    }
+}
+
+/// One history: returns the implementation fingerprint when everything is explained and the run is alive.
+fn check_history(idx: u64, h: &[Act], obs: &[i64], with_drain: bool, acc: &mut Acc) -> Option<Fp> {
+    let prog: String = std::iter::once("\\scrollmode ".to_string()).chain(h.iter().map(|a| a.text())).chain(std::iter::once("%".to_string())).collect();
+    let drain = drain_text(obs);
+    let case = || json!({"kind": "history", "actions": h.iter().map(|a| a.json()).collect::<Vec<_>>(), "observed_streams": obs, "with_drain": with_drain, "program": prog,
+        "legend": "output of the history: T/F = \\ifeof answers, [c/cat] = tokens stored by \\read; drain (run on the same VM afterwards) = tokens of \\x | E/O (\\ifeof true/false) for streams 0..15 | per observed stream five times: '.' if \\ifeof, else the tokens of one more \\read and ','"});
+    acc.eval();
+    acc.traces_validated += 1;
+    let mut mt = ModelRun::new(Eof::Tex);
+    let mut ma = ModelRun::new(Eof::ClosesWithLastLine);
+    for a in h {
+        mt.act(a);
+        ma.act(a);
+    }
+    // rule N + collision counters (model facts)
+    let reads = h.iter().filter(|a| matches!(a, Act::Read(_))).count();
+    if reads >= 1 && h.iter().any(|a| matches!(a, Act::Open(_, f) if *f != usize::MAX)) {
+        acc.nontrivial();
+    }
+    if mt.m.ifeof_in_d14b_window {
+        acc.count("ifeof_after_last_line_before_empty_line");
+    }
+    if mt.m.read_appended_empty_line {
+        acc.count("read_of_appended_empty_line");
+    }
+    if mt.m.read_spanned_lines {
+        acc.count("read_spanned_lines");
+    }
+    if mt.m.unmatched_right_brace {
+        acc.count("read_unmatched_right_brace");
+    }
+    if mt.m.read_from_terminal {
+        acc.count("read_from_terminal");
+    }
+    if mt.m.range_errors > 0 {
+        acc.count("stream_number_out_of_range");
+    }
+    {
+        let open: Vec<usize> = (0..16).filter(|s| mt.m.is_open(*s)).collect();
+        if open.len() >= 2 {
+            acc.count("two_streams_open");
+        }
+    }
+    let got = match run_history_impl(&prog, &drain) {
+        Ok(g) => g,
+        Err(p) if p.cutoff => {
+            acc.cutoffs += 1;
+            return None;
+        }
+        Err(p) => {
+            acc.fail(idx, case(), show_printed(&mt.p), p.describe(), "the VM panicked");
+            return None;
+        }
+    };
+    // --- the history itself
+    let window_main = mt.m.ifeof_in_d14b_window || mt.m.read_appended_empty_line;
+    let mut impl_is_adjusted = false;
+    if printed_matches(&mt.p, &got.main) {
+        acc.class("history agrees with TeX");
+    } else if window_main && printed_matches(&ma.p, &got.main) {
+        // finding D14b: applies = the history evaluates \ifeof n, or performs a further \read n, after the
+        // last line of stream n was read (TeX: the stream is open until the appended empty line is
+        // read); adjusted = the stream is closed together with its last real line
+        acc.known("D14b", idx, || {
+            let mut j = case();
+            j["expected_tex"] = json!(show_printed(&mt.p));
+            j["observed"] = json!(got.main.show());
+            j
+        });
+        acc.class("history: D14b");
+        impl_is_adjusted = true;
+    } else {
+        acc.fail(idx, case(), show_printed(&mt.p), got.main.show(), "output of the history differs from TeX §482-486");
+        return None;
+    }
+    let dead = if impl_is_adjusted { ma.p.dead } else { mt.p.dead };
+    if dead.is_some() {
+        acc.class("dead end (fatal error)");
+        acc.count("history_ends_in_fatal_error");
+        return None;
+    }
+    if !with_drain {
+        return None;
+    }
+    let gd = match &got.drain {
+        Some(d) => d,
+        None => return None,
+    };
+    // --- the drain (the fingerprint), judged like a second program
+    acc.eval();
+    mt.m.ifeof_in_d14b_window = false;
+    mt.m.read_appended_empty_line = false;
+    mt.drain(obs);
+    ma.drain(obs);
+    let window_drain = mt.m.ifeof_in_d14b_window || mt.m.read_appended_empty_line;
+    let dcase = || {
+        let mut j = case();
+        j["part"] = json!("drain");
+        j
+    };
+    if !impl_is_adjusted && printed_matches(&mt.p, gd) && mt.m.terminal_pos == got.terminal_pos {
+        acc.class("drain agrees with TeX");
+    } else if (impl_is_adjusted || window_drain) && printed_matches(&ma.p, gd) && ma.m.terminal_pos == got.terminal_pos {
+        acc.known("D14b", idx, || {
+            let mut j = dcase();
+            j["expected_tex"] = json!(show_printed(&mt.p));
+            j["observed"] = json!(gd.show());
+            j
+        });
+        acc.class("drain: D14b");
+    } else {
+        acc.fail(idx, dcase(), format!("{} (terminal lines used {})", show_printed(&mt.p), mt.m.terminal_pos), format!("{} (terminal lines used {})", gd.show(), got.terminal_pos), "state reached by the history differs from TeX §482-486 (observed by draining every stream)");
+        return None;
+    }
+    if gd.err.is_some() {
+        return None;
+    }
+    Some(Fp { drain: gd.out.clone(), terminal_pos: got.terminal_pos })
+}
+
+// ---------------------------------------------------------------- model self-validation
+
+fn self_validate(ctx: &mut Ctx) {
+    // the plain.tex table of the model and the crate's table agree on every character this check uses
+    let t = Table::plain();
+    for c in MENU.iter().chain(LEAVES.iter()).flat_map(|s| s.chars()).chain(STREAM_FILES.iter().flat_map(|f| f.1.chars())).chain("\r0123456789=-TFEO.,;|".chars()) {
+        let k = texlang::types::CatCode::PLAIN_TEX_DEFAULTS.get(c as usize).copied().unwrap_or_default() as u8;
+        if c != '\n' && c != '@' && t.cat(c) != k {
+            ctx.machinery_error(format!("category code of {c:?}: model {} crate {}", t.cat(c), k));
+        }
+    }
+    let cfg = model_cfg();
+    let trim = |s: &str| s.trim_end().to_string();
+    // crates/texlang-stdlib/src/input.rs, tests basic_case / input_together / nested (expansion equality
+    // modulo trailing blanks)
+    let mut files = BTreeMap::new();
+    files.insert("file1".to_string(), "content1\n".to_string());
+    files.insert("file2".to_string(), "content2%\n".to_string());
+    files.insert("file3".to_string(), "\\input nested/file4".to_string());
+    files.insert("nested/file4".to_string(), "content4".to_string());
+    for (name, main, want) in [("basic_case", "\\input file1 hello", "content1 hello"), ("input_together", "\\input file2 hello", "content2hello"), ("nested", "\\input file3", "content4")] {
+        let r = readtoks::run_input(&files, main, &cfg, EndInput::TexGlobalFlag);
+        if trim(&r.out) != want || r.stop != Stop::EndOfInput {
+            ctx.machinery_error(format!("model self-validation failed on input.rs test {name}: want {want:?} got {:?}", show_model(&r)));
+        }
+    }
+    // tests end_input_simple / end_input_in_second_file pin the D14a behaviour: they validate the *adjusted*
+    // model; the TeX model must read the rest of the line (The TeXbook p. 214: "\endinput ... stop
+    // reading from the current file after the current line")
+    let mut files = BTreeMap::new();
+    files.insert("file1".to_string(), "Hello\\def\\Macro{Hola\\endinput Mundo}\\Macro World\n".to_string());
+    for (name, main, want_adj, want_tex) in [("end_input_simple", "Hello\\endinput World", "Hello", "HelloWorld"), ("end_input_in_second_file", "Before\\input file1 After", "BeforeHelloHolaMundoAfter", "BeforeHelloHolaMundoWorld After")] {
+        let a = readtoks::run_input(&files, main, &cfg, EndInput::PerSourceDropLine);
+        let t = readtoks::run_input(&files, main, &cfg, EndInput::TexGlobalFlag);
+        if trim(&a.out) != want_adj || trim(&t.out) != want_tex || !t.endinput_with_rest {
+            ctx.machinery_error(format!("model self-validation failed on input.rs test {name}: adjusted {:?} tex {:?}", a.out, t.out));
+        }
+    }
+    // tests read_1 .. read_4, read_from_terminal (token lists as the crate's tests record them; the \ifeof
+    // answer of read_1 is the D14b behaviour and validates the adjusted model)
+    let plain = |t: &ReadOutcome| -> String {
+        match t {
+            ReadOutcome::Toks(t) => t.iter().map(|x| match x { TokV::Ch(c, _) => c.to_string(), TokV::Cs(n) => format!("\\{n}") }).collect(),
+            o => format!("{o:?}"),
+        }
+    };
+    for eof in [Eof::Tex, Eof::ClosesWithLastLine] {
+        let mut m = ReadMachine::new(cfg.clone(), eof, &["first-line", "second-line {", "third-line }", "fourth}line"]);
+        m.openin(0, Some("1\n2%\n3"));
+        let r: Vec<String> = (0..3).map(|_| plain(&m.read(0))).collect();
+        let closed = m.ifeof(0);
+        if r != ["1 ", "2", "3 "] || closed != (eof == Eof::ClosesWithLastLine) {
+            ctx.machinery_error(format!("model self-validation failed on input.rs test read_1 ({eof:?}): {r:?} closed={closed}"));
+        }
+        m.openin(1, Some("1{\n2\n3}"));
+        let r = plain(&m.read(1));
+        if r != "1{ 2 3} " {
+            ctx.machinery_error(format!("model self-validation failed on input.rs test read_2 ({eof:?}): {r:?}"));
+        }
+        m.openin(2, Some("1}1\n2"));
+        let r: Vec<String> = (0..2).map(|_| plain(&m.read(2))).collect();
+        if r != ["1", "2 "] {
+            ctx.machinery_error(format!("model self-validation failed on input.rs test read_3 ({eof:?}): {r:?}"));
+        }
+        m.openin(3, Some(""));
+        let r = plain(&m.read(3));
+        if r != "\\par" || !m.ifeof(3) {
+            ctx.machinery_error(format!("model self-validation failed on input.rs test read_4 ({eof:?}): {r:?}"));
+        }
+        m.closein(0);
+        let r: Vec<String> = (0..3).map(|_| plain(&m.read(0))).collect();
+        if r != ["first-line ", "second-line { third-line } ", "fourth"] {
+            ctx.machinery_error(format!("model self-validation failed on input.rs test read_from_terminal ({eof:?}): {r:?}"));
+        }
+        if m.read(0) != ReadOutcome::TerminalExhausted {
+            ctx.machinery_error("model self-validation failed on input.rs test failed_to_read_from_terminal");
+        }
+        m.openin(4, Some("hello { world"));
+        if m.read(4) != ReadOutcome::FileEndedInGroup {
+            ctx.machinery_error("model self-validation failed on input.rs test file_has_unmatched_braces");
+        }
+    }
+}
+
+// ---------------------------------------------------------------- main
+
 fn main() {
-    eprintln!("c19: check not built yet");
-    std::process::exit(2);
+    let mut ctx = Ctx::new("C19", Level::ModelChecking);
+    ctx.assume("a file is the sequence of its lines (pieces between '\\n'; a final '\\n' opens no further line; the empty file has no line). TeX82 §538 treats an empty \\input file as one blank line; the property is stated on lines standing in place, so the crate's convention is the reference here");
+    ctx.assume("input levels: the source pushed by the driver is level 1; 'documented limit of 100' = at most 100 files open at once (main + 99 nested), the 100th nested \\input is the fatal error 'too many input levels (100)' (TeX §328 overflow)");
+    ctx.assume("errors outside the property end the comparison: an unmatched }, an extra \\fi (error-stop mode), a missing file stop the run in the crate (TeX would recover); the output up to that point and the kind of the error are compared");
+    ctx.assume("read-stream histories run in \\scrollmode (TeX: interaction > nonstop, terminal reads allowed, recoverable errors do not stop); stream numbers outside 0..15 are the recoverable 'bad number' error and mean 0 for \\openin/\\closein/\\ifeof (§435), the terminal for \\read (§482)");
+    ctx.assume("the terminal is a script of non-empty lines owned by the harness; the process's stdin is never reachable (vtex::ScriptTerminal, stdin closed)");
+    ctx.assume("a \\read that meets the end of the file inside a brace group is an error in TeX (§486, recoverable, unbalanced result) and a fatal error in the crate: judged as 'error', the history is a dead end");
+    ctx.assume("\\endlinechar and the category codes keep their initial values during a run (their interaction with the scanner is C03)");
+
+    let quick = ctx.quick();
+    let acts = actions(quick, XS_FILES);
+    let obs: Vec<i64> = if quick { vec![0, 15] } else { vec![0, 1, 15] };
+
+    if let Some((_fam, case)) = ctx.replay_case() {
+        let mut acc = Acc::default();
+        match case["kind"].as_str() {
+            Some("tree") => judge_tree(0, &TreeCase::from_json(&case), &mut acc, false),
+            Some("inline") => judge_tree(0, &TreeCase::from_json(&case), &mut acc, true),
+            Some("history") => {
+                let h: Vec<Act> = case["actions"].as_array().map(|a| a.iter().map(Act::from_json).collect()).unwrap_or_default();
+                let obs: Vec<i64> = case["observed_streams"].as_array().map(|a| a.iter().map(|x| x.as_i64().unwrap_or(0)).collect()).unwrap_or_default();
+                check_history(0, &h, &obs, case["with_drain"].as_bool().unwrap_or(true), &mut acc);
+            }
+            _ => {
+                eprintln!("replay: unknown case kind");
+                std::process::exit(2);
+            }
+        }
+        ctx.finish_replay(acc);
+    }
+
+    self_validate(&mut ctx);
+
+    let m = MENU_CORE;
+    let m2 = MENU.len();
+    // F1: main of <= 2 lines, children of 1 line, grandchildren from the leaf set
+    {
+        let shape = Shape::new(vec![files_upto(2, m), files_upto(1, m), leaves()]);
+        ctx.family("tree-wide", &format!("main: every file of <= 2 menu lines ({} lines in the menu, with/without final newline, empty file); each \\input line: every file of <= 1 line; below: the leaf set {LEAVES:?}; fan-out <= 2, depth <= 3", m), shape.count(), |i, acc| {
+            let mut files = BTreeMap::new();
+            let main = shape.build(0, i, "", &mut files, &mut vec![]);
+            let case = TreeCase { main, files };
+            judge_tree(i, &case, acc, true);
+            if i % 9973 == 77 {
+                acc.sample(i, || case.json());
+            }
+        });
+    }
+    // F2: main of 1 line, child of <= 2 lines, leaves
+    {
+        let shape = Shape::new(vec![files_upto(1, m), files_upto(2, m), leaves()]);
+        ctx.family("tree-deep-child", "main: every file of <= 1 menu line; its \\input: every file of <= 2 lines; below: the leaf set; depth <= 3", shape.count(), |i, acc| {
+            let mut files = BTreeMap::new();
+            let main = shape.build(0, i, "", &mut files, &mut vec![]);
+            judge_tree(i, &TreeCase { main, files }, acc, true);
+        });
+    }
+    // F2b: all placements of \\input / \\endinput in a line (extended menu), small trees
+    {
+        let shape = Shape::new(vec![files_upto(1, m2), files_upto(1, m2), leaves()]);
+        ctx.family("placements-1", &format!("main and its child: every file of <= 1 line of the extended menu ({m2} lines: \\input / \\endinput at the start, in the middle and at the end of a line); below: the leaf set"), shape.count(), |i, acc| {
+            let mut files = BTreeMap::new();
+            let main = shape.build(0, i, "", &mut files, &mut vec![]);
+            judge_tree(i, &TreeCase { main, files }, acc, true);
+        });
+        let shape = Shape::new(vec![files_upto(2, m2), leaves()]);
+        ctx.family("placements-2", "main: every file of <= 2 lines of the extended menu; each \\input: the leaf set", shape.count(), |i, acc| {
+            let mut files = BTreeMap::new();
+            let main = shape.build(0, i, "", &mut files, &mut vec![]);
+            judge_tree(i, &TreeCase { main, files }, acc, true);
+        });
+    }
+    // F3: chains
+    {
+        let depth = ctx.pick(3usize, 5usize);
+        let mut levels: Vec<Vec<Spec>> = (0..depth).map(|_| files_upto(1, m)).collect();
+        levels.push(leaves());
+        let shape = Shape::new(levels);
+        ctx.family("chain", &format!("chains: {depth} levels of files of <= 1 menu line, then the leaf set"), shape.count(), |i, acc| {
+            let mut files = BTreeMap::new();
+            let main = shape.build(0, i, "", &mut files, &mut vec![]);
+            judge_tree(i, &TreeCase { main, files }, acc, true);
+        });
+    }
+    if !quick {
+        // F4 (thorough): two-line children under two-line mains; three-line mains
+        let shape = Shape::new(vec![files_upto(2, m), files_upto(2, m), vec![Spec::Literal("p\nq\n")]]);
+        ctx.family("tree-wide-2", "main and its children: every file of <= 2 menu lines; below: the two-line leaf \"p\\nq\\n\"; fan-out <= 2, depth <= 3", shape.count(), |i, acc| {
+            let mut files = BTreeMap::new();
+            let main = shape.build(0, i, "", &mut files, &mut vec![]);
+            judge_tree(i, &TreeCase { main, files }, acc, true);
+        });
+        let shape = Shape::new(vec![files_upto(2, m2), files_upto(1, m2), leaves()]);
+        ctx.family("placements-3", "main: every file of <= 2 lines of the extended menu; each \\input: every file of <= 1 line of it; below: the leaf set", shape.count(), |i, acc| {
+            let mut files = BTreeMap::new();
+            let main = shape.build(0, i, "", &mut files, &mut vec![]);
+            judge_tree(i, &TreeCase { main, files }, acc, true);
+        });
+        let shape = Shape::new(vec![files_upto(3, m), leaves()]);
+        ctx.family("main-3-lines", "main: every file of <= 3 menu lines; each \\input line: the leaf set; fan-out <= 3", shape.count(), |i, acc| {
+            let mut files = BTreeMap::new();
+            let main = shape.build(0, i, "", &mut files, &mut vec![]);
+            judge_tree(i, &TreeCase { main, files }, acc, true);
+        });
+    }
+    // F5: the documented depth limit
+    {
+        let depths = [1usize, 2, 50, 98, 99, 100, 101, 150];
+        ctx.family("depth-limit", "\\input chains of depth 1, 2, 50, 98, 99, 100, 101, 150 below the main file x 3 link shapes (\\input last on an unterminated line / mid-line / first of two lines)", (depths.len() * 3) as u64, |i, acc| {
+            let case = chain_case(depths[(i / 3) as usize], (i % 3) as usize);
+            judge_tree(i, &case, acc, false);
+            let d = depths[(i / 3) as usize];
+            if d == 99 {
+                acc.count("chain_at_limit");
+            }
+            if d == 100 {
+                acc.count("chain_over_limit");
+            }
+        });
+    }
+    // F6a: every short history without merging, including the file that ends inside a group
+    {
+        let flat = actions(quick, STREAM_FILES.len());
+        let k = flat.len() as u64;
+        let len = ctx.pick(2u32, 3u32);
+        let o = &obs;
+        let f = &flat;
+        ctx.family("read-flat", &format!("every history of length <= {len} over {k} actions (the alphabet of read-xs plus \\openin of a file that ends inside a brace group), no merging, output of the history only"), vcore::strings_upto(k, len), |i, acc| {
+            let hist: Vec<Act> = vcore::nth_string(k, i).into_iter().map(|j| f[j as usize]).collect();
+            check_history(i, &hist, o, false, acc);
+        });
+    }
+    // F6: read streams, explicit-state search
+    if ctx.wants("read-xs") {
+        let t = std::time::Instant::now();
+        let depth = ctx.pick(6usize, 8usize);
+        let deadline = std::time::Instant::now() + std::time::Duration::from_secs_f64(ctx.remaining_s().min(ctx.pick(60.0, 3000.0)));
+        let init = Fp { drain: "<initial>".into(), terminal_pos: 0 };
+        let a = &acts;
+        let o = &obs;
+        let (mut acc, stats) = vcore::xs::bfs(a.len(), depth, ctx.pick(400_000, 20_000_000), ctx.threads, deadline, init, |h, acc| {
+            let hist: Vec<Act> = h.iter().map(|i| a[*i as usize]).collect();
+            check_history(u64::MAX, &hist, o, true, acc)
+        });
+        acc.sample(0, || json!({"xs": {"depth_completed": stats.depth_completed, "frontier_sizes": stats.frontier_sizes, "states": stats.states, "actions": a.iter().map(|x| x.text()).collect::<Vec<_>>()}}));
+        ctx.extra(
+            "xs_read_streams",
+            json!({"depth_completed": stats.depth_completed, "depth_bound": depth, "frontier_sizes": stats.frontier_sizes, "capped": stats.capped, "actions": a.len(),
+            "fingerprint": "implementation-observable state: the tokens of \\x, the \\ifeof answer of all 16 streams, and for every stream of the alphabet the full sequence of remaining \\read results obtained by draining it (\\ifeof/\\read up to 5 times) on the same VM after the history, plus the number of terminal lines consumed"}),
+        );
+        ctx.push_family(
+            "read-xs",
+            &format!("BFS to depth {depth} over {} actions (\\openin s=f for s in {:?} and 9 files + a missing one, \\openin 16/-1, \\read / \\ifeof / \\closein on those streams and on 16, -1), states merged on the drained implementation state", a.len(), o),
+            stats.capped.is_none(),
+            stats.capped.clone(),
+            t.elapsed().as_secs_f64(),
+            acc,
+        );
+    }
+
+    ctx.require("input_mid_line", "\\input is executed while its line still has material after the file name");
+    ctx.require("file_ended_in_group", "a file ends with more groups open than when it was opened");
+    ctx.require("file_ended_in_conditional", "a file ends with more conditionals open than when it was opened");
+    ctx.require("endinput_with_rest", "\\endinput is executed with material still to be read on its line (domain of finding D14a)");
+    ctx.require("endinput_at_line_end", "\\endinput is executed as the last thing of its line");
+    ctx.require("force_eof_closed_other_file", "TeX's global force_eof closes a file other than the one that executed \\endinput");
+    ctx.require("backed_token_across_push", "a token backed up by the file-name scanner waits below the new file");
+    ctx.require("nesting_ge_2", "three files are open at once");
+    ctx.require("inlining_oracle_applied", "the model-free inlining oracle was applicable");
+    ctx.require("chain_at_limit", "a chain of exactly the documented depth was run");
+    ctx.require("chain_over_limit", "a chain one deeper than the documented depth was run");
+    ctx.require("ifeof_after_last_line_before_empty_line", "\\ifeof is evaluated after the last line of a stream was read and before the appended empty line (domain of finding D14b)");
+    ctx.require("read_of_appended_empty_line", "a \\read delivers the empty line TeX appends to a file");
+    ctx.require("read_spanned_lines", "one \\read consumed several lines (brace group)");
+    ctx.require("read_unmatched_right_brace", "a \\read line was aborted by an unmatched }");
+    ctx.require("read_from_terminal", "a \\read went to the terminal");
+    ctx.require("stream_number_out_of_range", "a stream number outside 0..15 was used");
+    ctx.require("two_streams_open", "two streams are open at the same time");
+    ctx.require("history_ends_in_fatal_error", "a history dies (terminal exhausted or file ended inside a group)");
+    ctx.finish("file trees: every tree of the stated shapes (non-trivial = a file is opened or an \\endinput executed); read streams: every history of the action alphabet up to the depth bound, states merged on the drained implementation state (non-trivial = opens an existing file and reads); both compared with reftex::readtoks after every history");
 }
